@@ -1,7 +1,7 @@
 (* C05: the monitor of Run/C05.v accepts every trace the model produces (and the diff of the model with
    itself is empty). *)
 From SC Require Import Lib.Prelude Lib.Int Lib.Host Model.Math Proofs.Math Model.Vault
-  Proofs.VaultSpec Proofs.VaultToken Proofs.VaultOps Proofs.VaultRate Proofs.VaultTrips Run.C05 Proofs.C05Tables Proofs.VaultAllow.
+  Proofs.VaultSpec Proofs.VaultToken Proofs.VaultOps Proofs.VaultRate Proofs.VaultTrips Proofs.VaultLive Run.C05 Proofs.C05Tables Proofs.VaultAllow.
 From Coq Require Import ZifyBool.
 
 (* the owner whose balance a getter reads lies in the observed universe *)
@@ -87,7 +87,7 @@ Definition model_item (c : cfg) (n : N) (s : state) (cl : call) : item :=
 Lemma obs_same_bal c n s s' : bal (asset s') = bal (asset s) -> o_ab (observe c n s') = o_ab (observe c n s).
 Proof. intros H. cbn [observe o_ab]. rewrite H. reflexivity. Qed.
 
-Lemma mon_call_model c n s cl : wf_cfg c -> (0 < n)%N -> Inv s -> wf_call_obs n cl = true ->
+Lemma mon_call_model c n s cl : wf_cfg c -> (0 < n)%N -> Inv c s -> wf_call_obs n cl = true ->
   mon_call c n (observe c n s) (model_item c n s cl) = true.
 Proof.
   intros Hc Hn Hi Hwf. unfold wf_call_obs in Hwf. apply andb_prop in Hwf as [Hwf Hown].
@@ -95,11 +95,11 @@ Proof.
   destruct (den_pos c s Hc Hi) as (HA1 & HSP & HA & HS & HP).
   unfold model_item, mon_call. cbn [o_ta o_sup observe].
   change (10 ^ c_off c) with (P_of c).
-  destruct cl as [a r f op au|x r f op au|a r ow op au|x r ow op au|f t a au|t a|ow sp a l au|f t a au|sp f t a au|ow sp a l au|k|q];
+  destruct cl as [a r f op au|x r f op au|a r ow op au|x r ow op au|f t a au|t a|ow sp a l au|f t a au|sp f t a au|ow sp a l au|k|q|sa|so];
     cbn [call_auths call_amount call_owner_ok pre_values fst snd] in *.
   - (* Deposit *)
     andb_split.
-    + apply eqb_rz_of_eq. apply to_shares_spec; exact Hr.
+    + apply eqb_rz_of_eq. apply (to_shares_spec c s _ _ (Inv_stored c s Hi)); exact Hr.
     + reflexivity.
     + unfold step. cbn [step_res]. destruct (deposit c s au a r f op) as [[s' [sh evs]]|] eqn:E; cbn [fst snd]; [|reflexivity].
       destruct (deposit_ok _ _ _ _ _ _ _ _ _ _ E Hi Hnv) as (Hp & Hev & He & Hau & _ & _ & _ & _).
@@ -110,7 +110,7 @@ Proof.
       * apply deposit_like_model; auto.
   - (* MintS *)
     andb_split.
-    + apply eqb_rz_of_eq. apply to_assets_spec; exact Hr.
+    + apply eqb_rz_of_eq. apply (to_assets_spec c s _ _ (Inv_stored c s Hi)); exact Hr.
     + reflexivity.
     + unfold step. cbn [step_res]. destruct (mint c s au x r f op) as [[s' [a evs]]|] eqn:E; cbn [fst snd]; [|reflexivity].
       destruct (mint_ok _ _ _ _ _ _ _ _ _ _ E Hi Hnv) as (Hp & Hev & He & Hau & _ & _ & _ & _).
@@ -123,9 +123,9 @@ Proof.
     assert (Hbr : MIN128 <= bal (share s) ow <= MAX128) by (apply tok_inv_bal_range; apply Hi).
     assert (Hown' : (ow < n)%N) by lia.
     andb_split.
-    + apply eqb_rz_of_eq. apply to_shares_spec; exact Hr.
+    + apply eqb_rz_of_eq. apply (to_shares_spec c s _ _ (Inv_stored c s Hi)); exact Hr.
     + apply eqb_rz_of_eq. cbn [o_sb observe]. change (map (bal (share s)) (univ n)) with (tab1 n (bal (share s))).
-      rewrite fn1_tab1 by exact Hown'. unfold max_withdraw. apply to_assets_spec; exact Hbr.
+      rewrite fn1_tab1 by exact Hown'. unfold max_withdraw. apply (to_assets_spec c s _ _ (Inv_stored c s Hi)); exact Hbr.
     + unfold step. cbn [step_res]. destruct (withdraw c s au a r ow op) as [[s' [sh evs]]|] eqn:E; cbn [fst snd].
       2:{ (* a failing withdraw is not one the owner was entitled to *)
           apply negb_true_iff. destruct (auth_root au op) eqn:Eau; [|reflexivity].
@@ -145,7 +145,7 @@ Proof.
   - (* Redeem *)
     assert (Hown' : (ow < n)%N) by lia.
     andb_split.
-    + apply eqb_rz_of_eq. apply to_assets_spec; exact Hr.
+    + apply eqb_rz_of_eq. apply (to_assets_spec c s _ _ (Inv_stored c s Hi)); exact Hr.
     + cbn [o_sb observe]. change (map (bal (share s)) (univ n)) with (tab1 n (bal (share s))).
       rewrite fn1_tab1 by exact Hown'. unfold max_redeem. cbn. apply Z.eqb_refl.
     + unfold step. cbn [step_res]. destruct (redeem c s au x r ow op) as [[s' [a evs]]|] eqn:E; cbn [fst snd].
@@ -222,28 +222,66 @@ Proof.
     destruct (run_query c s q) as [v|] eqn:Eq; cbn [bind fst snd];
       (apply andb_true_intro; split; [apply eqb_obs_refl|]); apply eqb_rz_of_eq; rewrite <- Eq; clear Eq;
       (destruct q as [a|x|a|x|a|x|r|r|o|o]; cbn [run_query call_amount call_owner_ok] in *;
-        try (apply to_shares_spec; exact Hr); try (apply to_assets_spec; exact Hr); try reflexivity;
+        try (apply (to_shares_spec c s _ _ (Inv_stored c s Hi)); exact Hr); try (apply (to_assets_spec c s _ _ (Inv_stored c s Hi)); exact Hr); try reflexivity;
         [ assert (Hbr : MIN128 <= bal (share s) o <= MAX128) by (apply tok_inv_bal_range; apply Hi);
           cbn [o_sb observe]; change (map (bal (share s)) (univ n)) with (tab1 n (bal (share s)));
-          rewrite fn1_tab1 by lia; unfold max_withdraw; apply to_assets_spec; exact Hbr
+          rewrite fn1_tab1 by lia; unfold max_withdraw; apply (to_assets_spec c s _ _ (Inv_stored c s Hi)); exact Hbr
         | cbn [o_sb observe]; change (map (bal (share s)) (univ n)) with (tab1 n (bal (share s)));
           rewrite fn1_tab1 by lia; reflexivity ]).
+  - (* SetAsset: already set *)
+    unfold step. cbn [step_res]. unfold vault_set_asset. destruct (Inv_stored c s Hi) as [Hva _]. rewrite Hva. reflexivity.
+  - (* SetOffset: already set *)
+    unfold step. cbn [step_res]. unfold vault_set_decimals_offset. destruct (Inv_stored c s Hi) as [_ Hvo]. rewrite Hvo.
+    destruct (guard (negb (c_max_off c <? so))); reflexivity.
 Qed.
 
 (* ---------- mon_step on one model step ---------- *)
 Lemma wf_call_obs_wf n cl : wf_call_obs n cl = true -> wf_call cl = true.
 Proof. unfold wf_call_obs. intros H. apply andb_prop in H as [H _]. exact H. Qed.
 
-Lemma mon_step_model c n s cl : wf_cfg c -> (0 < n)%N -> Inv s -> wf_call_obs n cl = true ->
+Lemma stored_decimals c s : Stored c s -> in_u32 (c_adec c + c_off c) = true ->
+  vault_decimals c s = Ok (c_adec c + c_off c).
+Proof.
+  intros Hst Hd. unfold vault_decimals. rewrite (stored_client c s Hst), (stored_off c s Hst). cbn [bind].
+  unfold checked_add_u32. rewrite Hd. reflexivity.
+Qed.
+
+(* construction: succeeds exactly for an admissible offset and non-overflowing decimals, and leaves [init] *)
+Lemma construct_eq c n0 :
+  construct c n0 = if c_max_off c <? c_off c then Fail
+                   else if in_u32 (c_adec c + c_off c) then Ok (init c n0, c_adec c + c_off c) else Fail.
+Proof.
+  unfold construct, vault_set_asset, vault_set_decimals_offset, blank, vault_decimals, asset_client, query_asset,
+    get_decimals_offset, checked_add_u32, init.
+  cbn [v_asset v_off bind of_option now asset share].
+  destruct (c_max_off c <? c_off c); cbn [negb guard bind v_asset v_off of_option now asset share]; [reflexivity|].
+  change (N.eqb ASSET_ADDR ASSET_ADDR) with true. cbn [guard bind].
+  destruct (in_u32 (c_adec c + c_off c)); reflexivity.
+Qed.
+Lemma construct_ok c n0 s0 d : construct c n0 = Ok (s0, d) ->
+  s0 = init c n0 /\ d = c_adec c + c_off c /\ c_off c <= c_max_off c /\ in_u32 (c_adec c + c_off c) = true.
+Proof.
+  rewrite construct_eq. destruct (c_max_off c <? c_off c) eqn:E1; [discriminate|].
+  destruct (in_u32 (c_adec c + c_off c)) eqn:E2; [|discriminate]. intros H; inversion H. repeat split; auto. lia.
+Qed.
+Lemma construct_fail c n0 : construct c n0 = Fail ->
+  c_max_off c < c_off c \/ in_u32 (c_adec c + c_off c) = false.
+Proof.
+  rewrite construct_eq. destruct (c_max_off c <? c_off c) eqn:E1; [left; lia|].
+  destruct (in_u32 (c_adec c + c_off c)) eqn:E2; [discriminate|]. right; reflexivity.
+Qed.
+
+Lemma mon_step_model c n s cl : wf_cfg c -> in_u32 (c_adec c + c_off c) = true -> (0 < n)%N -> Inv c s ->
+  wf_call_obs n cl = true ->
   mon_step c n (observe c n s) (model_item c n s cl) = true.
 Proof.
-  intros Hc Hn Hi Hwf. pose proof (wf_call_obs_wf n cl Hwf) as Hw.
+  intros Hc Hdu Hn Hi Hwf. pose proof (wf_call_obs_wf n cl Hwf) as Hw.
   pose proof (mon_call_model c n s cl Hc Hn Hi Hwf) as Hcall.
   destruct (step_inv_rate c s cl Hc Hi Hw) as (Hi' & Hrate).
   unfold mon_step. unfold model_item in *. rewrite Hcall, andb_true_r. clear Hcall.
   andb_split.
-  - cbn [observe o_dec]. apply Z.eqb_refl.
-  - reflexivity.
+  - cbn [observe o_dec]. rewrite (stored_decimals c _ (Inv_stored c _ Hi') Hdu). apply Z.eqb_refl.
+  - cbn [observe o_asset]. destruct (Inv_stored c _ Hi') as [Hva _]. unfold query_asset. rewrite Hva. reflexivity.
   - cbn [observe o_ta o_ab]. change (map (bal (asset (fst (step c s cl)))) (univ n)) with (tab1 n (bal (asset (fst (step c s cl))))).
     rewrite fn1_tab1 by (unfold V; exact Hn). unfold total_assets. apply Z.eqb_refl.
   - unfold step. destruct (step_res c s cl) as [[s' o]|]; cbn [fst snd is_fail]; [reflexivity|apply eqb_obs_refl].
@@ -286,11 +324,48 @@ Proof.
   - rewrite fn2_tab2 by assumption. reflexivity.
 Qed.
 
-Lemma mon_allow_model c n s st cl : Ghost c n s st -> mon_allow n st (model_item c n s cl) = true.
+Lemma can_pull_obs_model c n s st au a f o : Ghost c n s st ->
+  can_pull_obs c n st au a f o = true -> can_pull c s au a f o.
 Proof.
-  intros [Hobs Hnow Halu Hslu]. unfold mon_allow, model_item. rewrite Hobs, Hnow.
-  unfold step. destruct (step_res c s cl) as [[s' [v evs]]|] eqn:E; cbn [fst snd]; [|reflexivity].
-  destruct cl as [a r f op au|x r f op au|a r ow op au|x r ow op au|f t a au|t a|ow sp a l au|f t a au|sp f t a au|ow sp a l au|k|q];
+  intros [Hobs Hnow Halu Hslu] H. unfold can_pull_obs in H. rewrite Hobs, Hnow in H.
+  cbn [observe o_ab o_aal] in H.
+  change (map (bal (asset s)) (univ n)) with (tab1 n (bal (asset s))) in H.
+  change (map (fun o0 => map (allowance (now s) (asset s) o0) (univ n)) (univ n)) with (tab2 n (allowance (now s) (asset s))) in H.
+  apply andb_prop in H as [H Ho]. apply andb_prop in H as [H Hf]. apply andb_prop in H as [H Hal].
+  apply andb_prop in H as [H Hle]. apply andb_prop in H as [Hau H0].
+  assert (Hf' : (f < n)%N) by lia. assert (Ho' : (o < n)%N) by lia.
+  rewrite fn1_tab1 in Hle by exact Hf'.
+  split; [exact Hau|]. split; [lia|]. intros Hne.
+  apply orb_prop in Hal as [Hal|Hal]; [apply N.eqb_eq in Hal; contradiction|].
+  apply andb_prop in Hal as [Hal1 Hal2]. rewrite fn2_tab2 in Hal1 by assumption.
+  split; [lia|]. intros Hp. rewrite Halu in Hal2. unfold lu_of in Hal2. lia.
+Qed.
+
+Lemma mon_allow_model c n s st cl : Inv c s -> wf_call cl = true -> Ghost c n s st ->
+  mon_allow c n st (model_item c n s cl) = true.
+Proof.
+  intros Hi Hwfc Hg. pose proof Hg as [Hobs Hnow Halu Hslu]. unfold mon_allow, model_item.
+  unfold step. destruct (step_res c s cl) as [[s' [v evs]]|] eqn:E; cbn [fst snd].
+  2:{ destruct cl; try reflexivity; cbn [pre_values fst].
+      - (* Deposit *)
+        apply negb_true_iff. destruct (preview_deposit c s assets) as [sh|] eqn:Ep; [|reflexivity].
+        destruct ((o_sup (m_obs st) + sh <=? MAX128) && can_pull_obs c n st au assets from operator) eqn:Ec; [|reflexivity].
+        exfalso. apply andb_prop in Ec as [Em Ec]. rewrite Hobs in Em. cbn [observe o_sup] in Em.
+        pose proof (can_pull_obs_model c n s st au assets from operator Hg Ec) as Hpull.
+        destruct (proj2 (deposit_iff c s au assets receiver from operator Hi)) as (s1 & sh1 & ev1 & Hok).
+        { exists sh. split; [exact Ep|]. split; [lia|exact Hpull]. }
+        rewrite E in Hok. discriminate.
+      - (* MintS *)
+        apply negb_true_iff. destruct (preview_mint c s shares) as [a|] eqn:Ep; [|reflexivity].
+        destruct (in_i128 shares && (o_sup (m_obs st) + shares <=? MAX128) && can_pull_obs c n st au a from operator) eqn:Ec; [|reflexivity].
+        exfalso. apply andb_prop in Ec as [Em Ec]. apply andb_prop in Em as [Er Em]. rewrite Hobs in Em. cbn [observe o_sup] in Em.
+        apply in_i128_iff in Er.
+        pose proof (can_pull_obs_model c n s st au a from operator Hg Ec) as Hpull.
+        destruct (proj2 (mint_iff c s au shares receiver from operator Hi Er)) as (s1 & a1 & ev1 & Hok).
+        { exists a. split; [exact Ep|]. split; [lia|exact Hpull]. }
+        rewrite E in Hok. discriminate. }
+  rewrite Hobs, Hnow.
+  destruct cl as [a r f op au|x r f op au|a r ow op au|x r ow op au|f t a au|t a|ow sp a l au|f t a au|sp f t a au|ow sp a l au|k|q|sa|so];
     cbn [step_res] in E; try reflexivity.
   - (* ATransfer *)
     unfold lift_tok in E. bsplit E t1 E1. inversion E; subst. apply tok_transfer_ok in E1. destruct E1 as (_ & _ & ->).
@@ -349,14 +424,15 @@ Proof.
   - constructor; cbn [m_obs m_now m_alu m_slu]; auto.
 Qed.
 
-Lemma mon_from_model c n : wf_cfg c -> (0 < n)%N -> forall cs s st i, Inv s -> Ghost c n s st ->
+Lemma mon_from_model c n : wf_cfg c -> in_u32 (c_adec c + c_off c) = true -> (0 < n)%N ->
+  forall cs s st i, Inv c s -> Ghost c n s st ->
   forallb (wf_call_obs n) cs = true -> mon_from c n st (model_items c n s cs) i = 0%N.
 Proof.
-  intros Hc Hn. induction cs as [|cl cs IH]; intros s st i Hi Hg Hwf; [reflexivity|].
+  intros Hc Hdu Hn. induction cs as [|cl cs IH]; intros s st i Hi Hg Hwf; [reflexivity|].
   cbn [forallb] in Hwf. apply andb_prop in Hwf as [Hw Hws].
   cbn [model_items mon_from].
   change (cl, pre_values c s cl, snd (step c s cl), observe c n (fst (step c s cl))) with (model_item c n s cl).
-  rewrite (g_obs _ _ _ _ Hg). rewrite (mon_step_model c n s cl Hc Hn Hi Hw), (mon_allow_model c n s st cl Hg). cbn [andb].
+  rewrite (g_obs _ _ _ _ Hg). rewrite (mon_step_model c n s cl Hc Hdu Hn Hi Hw), (mon_allow_model c n s st cl Hi (wf_call_obs_wf n cl Hw) Hg). cbn [andb].
   apply IH; auto.
   - apply step_inv_rate; auto. apply (wf_call_obs_wf n); exact Hw.
   - apply ghost_next; exact Hg.
@@ -376,26 +452,26 @@ Theorem check_accepts_model c n now0 cs : wf_hdr c n = true -> forallb (wf_call_
 Proof.
   intros Hh Hwf. unfold wf_hdr in Hh. apply andb_prop in Hh as [Hh Hn]. apply andb_prop in Hh as [Hoff Hdec].
   assert (Hc : wf_cfg c) by (unfold wf_cfg; lia). assert (Hn' : (0 < n)%N) by lia.
-  unfold check, observe_model. destruct (construct c) as [d|] eqn:Ec.
-  - f_equal. f_equal.
-    + unfold diff. cbn [fst snd h_cfg h_ctor h_n h_now h_obs0]. rewrite Ec, eqb_rz_refl. cbn [negb].
+  unfold check, observe_model. destruct (construct c now0) as [[s0 d]|] eqn:Ec.
+  - destruct (construct_ok c now0 s0 d Ec) as (-> & -> & Hmax & Hdu).
+    assert (Hi0 : Inv c (init c now0)) by apply Inv_init.
+    f_equal. f_equal.
+    + unfold diff. cbn [fst snd h_cfg h_ctor h_n h_now h_obs0]. rewrite Ec. cbn [ctor_dec]. rewrite eqb_rz_refl. cbn [negb].
       rewrite eqb_obs_refl. apply replay_model.
     + unfold monitor. cbn [fst snd h_cfg h_ctor h_n h_now h_obs0].
-      assert (Hm : mon_header {| h_cfg := c; h_n := n; h_now := now0; h_ctor := Ok d; h_obs0 := observe c n (init now0) |} = true).
+      assert (Hm : mon_header {| h_cfg := c; h_n := n; h_now := now0; h_ctor := Ok (c_adec c + c_off c);
+                                 h_obs0 := observe c n (init c now0) |} = true).
       { unfold mon_header. cbn [h_cfg h_ctor h_obs0 observe o_sup o_ta].
-        unfold construct in Ec. bsplit Ec u Eg. apply guard_ok in Eg.
-        apply of_option_ok in Ec. unfold checked_add_u32 in Ec. destruct (in_u32 (c_adec c + c_off c)); inversion Ec.
         unfold total_supply, total_assets. cbn. rewrite Z.eqb_refl. cbn [andb]. lia. }
-      rewrite Hm. apply mon_from_model; auto; [apply Inv_init|].
+      rewrite Hm. apply mon_from_model; auto.
       constructor; cbn [minit m_obs m_now m_alu m_slu h_obs0 h_now init now asset share]; auto.
   - f_equal. f_equal.
-    + unfold diff. cbn [fst snd h_cfg h_ctor]. rewrite Ec. reflexivity.
+    + unfold diff. cbn [fst snd h_cfg h_ctor h_now]. rewrite Ec. reflexivity.
     + unfold monitor. cbn [fst snd].
-      assert (Hm : mon_header {| h_cfg := c; h_n := n; h_now := now0; h_ctor := Fail; h_obs0 := observe c n (init now0) |} = true).
-      { unfold mon_header. cbn [h_cfg h_ctor]. unfold construct in Ec.
-        destruct (c_max_off c <? c_off c) eqn:E1; [reflexivity|]. cbn [negb guard bind] in Ec.
-        unfold checked_add_u32, in_u32 in Ec. cbn [orb].
-        destruct ((0 <=? c_adec c + c_off c) && (c_adec c + c_off c <=? MAXU32)) eqn:E2; [discriminate|]. lia. }
+      assert (Hm : mon_header {| h_cfg := c; h_n := n; h_now := now0; h_ctor := Fail; h_obs0 := observe c n (blank now0) |} = true).
+      { unfold mon_header. cbn [h_cfg h_ctor]. destruct (construct_fail c now0 Ec) as [H|H].
+        - assert (E : (c_max_off c <? c_off c) = true) by lia. rewrite E. reflexivity.
+        - unfold in_u32 in H. apply orb_true_iff. right. lia. }
       rewrite Hm. reflexivity.
 Qed.
 
